@@ -153,6 +153,21 @@ def _job(args):
         return dict(harness=hname, error="harness", detail="%s: %s\n%s" % (type(e).__name__, e, traceback.format_exc()[-3000:]))
 
 
+def _shutdown(pool):
+    """Pool.terminate() can dead-lock when tasks are still in flight (observed once: all workers
+    gone, the master waiting on a futex). Kill the workers ourselves and give terminate() a few
+    seconds in a daemon thread; the process ends with os._exit in run_check.py."""
+    import threading
+    for p in list(getattr(pool, "_pool", [])):
+        try:
+            p.kill()
+        except Exception:
+            pass
+    t = threading.Thread(target=pool.terminate, daemon=True)
+    t.start()
+    t.join(5)
+
+
 def src_hash(f):
     try:
         src = inspect.getsource(f)
@@ -222,7 +237,8 @@ def run_check(check_id, harnesses, tier, seed, known=None, budget_s=None, eviden
     random.Random(seed).shuffle(order)
     queue = [(h.name, [], slice_paths, slice_s) for h in order]
     inflight = 0
-    with ctxm.Pool(NPROC) as pool:
+    pool = ctxm.Pool(NPROC)
+    if True:
         results = []
 
         def submit():
@@ -267,7 +283,7 @@ def run_check(check_id, harnesses, tier, seed, known=None, budget_s=None, eviden
             if error or violation:
                 break
             submit()
-        pool.terminate()
+        _shutdown(pool)
 
     out = Result()
     exhaustive = error is None and violation is None
